@@ -223,7 +223,10 @@ func c13run(c *ctx, sc *c13Script) {
 				missing = append(missing, q)
 			}
 		}
-		bad := len(missing) != len(encErrCalls)
+		// the property: each number at most once (checked above), no gap except numbers consumed by a failed
+		// encode ("a number may be skipped but never reused"). Whether a failed encode consumes its number is the
+		// model's prediction and is compared in the trace rows, not here.
+		bad := len(missing) > len(encErrCalls)
 		for _, r := range fr {
 			if r.f.Seq >= N {
 				bad = true
@@ -402,7 +405,10 @@ func c13trace(c *ctx, sc *c13Script, si int, fr []*tapRec, tagOf map[*tapRec]byt
 		}
 	}
 	// a failed encode consumed the missing number (scripts have at most one per stream)
-	if len(encErr) == 1 && len(missing) == 1 {
+	if len(encErr) == 1 && len(missing) <= 1 {
+		if len(missing) == 0 {
+			missing = []uint64{finSeq} // the implementation did not consume a number; the model row below will differ
+		}
 		cl := encErr[0]
 		secs = append(secs, &section{first: missing[0], call: cl, chunk: int(cl.handed) - 1, inferred: true})
 	} else if len(encErr) > 0 {
@@ -697,7 +703,7 @@ func c13(c *ctx) {
 		c13run(c, g.sc)
 	}
 	// (b) concurrent calls on ONE stream, free-running goroutines, seeded yields inside the critical sections
-	for i := 0; i < reps(120, 1500); i++ {
+	for i := 0; i < reps(400, 6000); i++ {
 		g := newC13Gen(c, fmt.Sprintf("one-stream #%d", i), 1)
 		k := 2 + r.intn(7)
 		var ws []int
@@ -731,7 +737,7 @@ func c13(c *ctx) {
 		c13run(c, g.sc)
 	}
 	// (c) several streams at once + the session-closing notice: (stream id, seq) pairs of the endpoint
-	for i := 0; i < reps(25, 300); i++ {
+	for i := 0; i < reps(80, 1000); i++ {
 		ns := 2 + r.intn(5)
 		g := newC13Gen(c, fmt.Sprintf("multi-stream #%d", i), ns)
 		g.sc.sessClose = r.intn(2) == 0
@@ -753,7 +759,7 @@ func c13(c *ctx) {
 	}
 	// (d) a send is made to fail (that tears the session down): concurrent writes (+ Close) on one stream;
 	// the failing message is chosen by capture index
-	for i := 0; i < reps(40, 400); i++ {
+	for i := 0; i < reps(120, 1500); i++ {
 		g := newC13Gen(c, fmt.Sprintf("send-failure #%d", i), 1)
 		k := 2 + r.intn(5)
 		frames := 0
@@ -770,7 +776,7 @@ func c13(c *ctx) {
 		c13run(c, g.sc)
 	}
 	// (d') the same for ReadFrom, one goroutine at a time
-	for i := 0; i < reps(10, 100); i++ {
+	for i := 0; i < reps(30, 300); i++ {
 		g := newC13Gen(c, fmt.Sprintf("readfrom-send-failure #%d", i), 1)
 		a := g.write(0, g.size())
 		nch := 1 + r.intn(4)
@@ -781,7 +787,7 @@ func c13(c *ctx) {
 		c13run(c, g.sc)
 	}
 	// (e) an encode that fails (ReadFrom hands out an empty chunk): its number is consumed and skipped
-	for i := 0; i < reps(30, 300); i++ {
+	for i := 0; i < reps(80, 1000); i++ {
 		g := newC13Gen(c, fmt.Sprintf("failed-encode #%d", i), 1)
 		sizes := g.chunkSizes(1 + r.intn(3))
 		sizes = append(sizes, 0)
@@ -796,7 +802,7 @@ func c13(c *ctx) {
 	}
 	// (f) stress: a multi-frame Write loop against a ReadFrom with full-size chunks on the same stream —
 	// the two encode paths hammer writingFrame.Seq (this is where a send outside the mutex shows)
-	for i := 0; i < reps(6, 60); i++ {
+	for i := 0; i < reps(10, 100); i++ {
 		g := newC13Gen(c, fmt.Sprintf("stress #%d", i), 1)
 		g.sc.nConns = 2
 		nf := reps(12, 40)
